@@ -7,11 +7,18 @@
    the pairwise MAC key for a (header hash, index, payload hash) the sender never
    authenticated for this recipient, or a SHA-512 collision is exhibited.
    Co-recipients (who know the payload key) gain nothing: the payload key's
-   secrecy is not used anywhere.  Only property theorems here. *)
+   secrecy is not used anywhere.  Only property theorems here.
+   LOCATED BREAKS: every witness of the break disjunct lies in a finite list computed by a
+   fixed function from (the primitives, this input and the receiver's keys) or from (the
+   primitives, the honest history): a forged tag/signature is one of the pairs the receiver
+   actually checked on this input; a SHA-512 collision is between one string the receiver
+   hashed while processing this input and one string the honest party hashed while producing
+   its history.  (An unrestricted "exists x <> y with equal hashes" is true of real SHA-512 by
+   pigeonhole and would make the disjunction empty of content.) *)
 From Coq Require Import List NArith ZArith.
 From Coq.Strings Require Import Byte.
 From SP Require Import Bytes Params Msgpack Crypto Errors Packets Chunker Rand Verify Encrypt Decrypt
-     SignAuthProofs EncryptProofs EncAuthProofs.
+     SignAuthProofs EncryptProofs EncAuthProofs EncAuthLocated.
 Import ListNotations.
 Open Scope N_scope.
 
@@ -32,8 +39,8 @@ Theorem C02_authentic (vd : validator) (senders : option (list bytes)) (input : 
       In msg L /\ nth_error (em_rs msg) pos = Some (dh_pub c r_sk, hide) /\
       list_prefix (so_chunks out) (map fst (em_packets msg)) /\
       (so_end out = EOF -> so_chunks out = map fst (em_packets msg)))
-  \/ EncBreak c s_sk r_sk vd kr L input.
-Proof. exact (open_authentic c Hc s_sk r_sk vd senders input m out L). Qed.
+  \/ EncBreakL c s_sk r_sk vd kr L input.
+Proof. exact (open_authentic_located c Hc s_sk r_sk vd senders input m out L). Qed.
 
 Theorem C02_all_at_once (vd : validator) (senders : option (list bytes)) (input : bytes)
         (m : mki) (pt : bytes) (L : list (enc_msg)) :
@@ -44,8 +51,8 @@ Theorem C02_all_at_once (vd : validator) (senders : option (list bytes)) (input 
   mki_sender m = dh_pub c s_sk -> mki_sender_anon m = false ->
   (exists msg hide pos,
       In msg L /\ nth_error (em_rs msg) pos = Some (dh_pub c r_sk, hide) /\ pt = concat (map fst (em_packets msg)))
-  \/ EncBreak c s_sk r_sk vd kr L input.
-Proof. exact (open_authentic_all c Hc s_sk r_sk vd senders input m pt L). Qed.
+  \/ EncBreakL c s_sk r_sk vd kr L input.
+Proof. exact (open_authentic_all_located c Hc s_sk r_sk vd senders input m pt L). Qed.
 End C02.
 
 Print Assumptions C02_authentic.
